@@ -139,6 +139,8 @@ class JSON:
         """Apply this filter to _left_ and return the result."""
         indent = int_arg(indent) if indent else None
         try:
-            return json.dumps(left, default=self.default, indent=indent)
-        except TypeError as err:
+            return json.dumps(
+                left, default=self.default, indent=indent, allow_nan=False
+            )
+        except (TypeError, ValueError) as err:
             raise LiquidTypeError(str(err), token=None) from err
